@@ -188,6 +188,13 @@ ALLOWED_AXIOMS = [
     r"^Eqdep\.Eq_rect_eq\.eq_rect_eq$",
     r"^JMeq\.JMeq_eq$",
     r"^(Coq\.Floats\.)?\w+_spec$",
+    # the primitive float type/operations and FloatAxioms, as printed when Floats is imported
+    # (unqualified).  This development declares no axiom itself (forbidden_scan), so these names can
+    # only be the standard library's primitives.
+    r"^(Prim2SF_SF2Prim|Prim2SF_valid|SF2Prim_Prim2SF|Prim2SF_inj|SF2Prim_inj)$",
+    r"^(float|abs|add|sub|mul|div|sqrt|opp|eqb|ltb|leb|compare|classify|of_uint63|normfr_mantissa|"
+    r"frshiftexp|ldshiftexp|next_up|next_down|float_class|float_comparison)$",
+    r"^(int|lsl|lsr|land|lor|lxor|addc|subc|mulc|diveucl|addmuldiv|head0|tail0|compares|eqbs|ltbs|lebs)$",
 ]
 
 
